@@ -147,9 +147,64 @@ def check_table(ctx, iso):
     ctx.count("table:rows=%d" % len(iso.Scale.dict))
 
 
+
+def changing_key_cases(ctx):
+    """Filtering / snapping / degree mapping against a key (or scale) that is itself a pattern: the key stream advances by
+    exactly one value per step — also on steps where the melody has a rest — so output i is judged against key i
+    (oracle on the implementation alone, with the independent pitch-class-set membership test)."""
+    import isobar as iso
+    r = ctx.rng
+    names = ["major", "minor", "pureminor", "chromatic", "majorPenta", "minorPenta", "wholetone", "fourths"]
+
+    def in_key(key, n):
+        pcs = {(key.tonic + s) % key.scale.octave_size for s in key.scale.semitones}
+        return n % key.scale.octave_size in pcs
+    for i in range(ctx.scale(200, 6000)):
+        nk = r.randint(2, 4)
+        keys = [iso.Key(r.randint(0, 11), getattr(iso.Scale, r.choice(names))) for _ in range(nk)]
+        m = r.randint(4, 14)
+        melody = [None if r.random() < 0.3 else r.randint(0, 127) for _ in range(m)]
+        kind = r.choice(["nearest", "filter", "degree"])
+        bad = None
+        if kind == "degree":
+            degs = [None if r.random() < 0.3 else r.randint(-14, 14) for _ in range(m)]
+            p = iso.PDegree(iso.PSequence(degs, 1), iso.PSequence(keys))
+            out = p.nextn(m)
+            for j, (d, o) in enumerate(zip(degs, out)):
+                k = keys[j % nk]
+                exp = None if d is None else k.get(d)
+                if o != exp:
+                    bad = "PDegree step %d: degree %r in key %d of the progression gives %r, expected %r" % (j, d, j % nk, o, exp)
+                    break
+        else:
+            cls = iso.PNearestNoteInKey if kind == "nearest" else iso.PFilterByKey
+            p = cls(iso.PSequence(melody, 1), iso.PSequence(keys))
+            out = p.nextn(m)
+            for j, (n_, o) in enumerate(zip(melody, out)):
+                k = keys[j % nk]
+                if n_ is None:
+                    exp_ok = o is None
+                elif kind == "nearest":
+                    exp_ok = o is not None and in_key(k, o) and not any(in_key(k, c) for c in range(n_ - abs(o - n_) + 1, n_ + abs(o - n_)))
+                else:
+                    exp_ok = (o == n_) if in_key(k, n_) else (o is None)
+                if not exp_ok:
+                    bad = "%s step %d: note %r against key %d of the progression (tonic %d, %s) gives %r" % (
+                        cls.__name__, j, n_, j % nk, k.tonic, k.scale.name, o)
+                    break
+            if len(out) != m and not bad:
+                bad = "%s yielded %d values for a melody of %d" % (cls.__name__, len(out), m)
+        ctx.case(("changing-key", kind, tuple((k.tonic, k.scale.name) for k in keys), tuple(melody)), nontrivial=None in melody, validated=False,
+                 sample={"changing_key": {"kind": kind, "keys": [(k.tonic, k.scale.name) for k in keys], "melody": melody[:8]}} if i < 2 else None)
+        ctx.count("changing-key:" + kind)
+        if bad:
+            ctx.violation("C13:changing-key:" + kind, bad, {"suite": "changing-key", "kind": kind, "keys": [(k.tonic, k.scale.name) for k in keys], "melody": melody})
+
+
 def run(ctx):
     common.ensure_repo_on_path()
     import isobar as iso
+    changing_key_cases(ctx)
     check_table(ctx, iso)
     cases = names_cases(ctx.rng, iso)
     cases += builtin_cases(ctx.rng, iso)
